@@ -20,11 +20,11 @@ clearing the list), `_unregister` (remove, then append to `_gateways_to_join`) a
 wait of `safe_terminate` uses -/
 theorem C05_loop_pinned :
     Generated.terminateLoopTest = "self or self._gateways_to_join" ∧
-    Generated.terminateLoopBody = ["set", "for: add(gw.spec.via)", "for: exit()", "def join_wait: join(); wait()",
-      "def kill: kill()", "safe_terminate", "clear _gateways_to_join"] ∧
+    Generated.terminateLoopBody = ["set", "for: add(gw.spec.via)", "for: exit()", "def: join(); wait()",
+      "def: kill()", "safe_terminate", "clear _gateways_to_join"] ∧
     Generated.unregisterSteps = ["remove(gateway)", "append(gateway)"] ∧
-    Generated.safeTerminateWaits = [("reply.waitfinish", "wait_timeout"), ("termreply.get", "timeout"),
-      ("wait_timeout", "None if timeout is None else timeout * 2"), ("workerpool.waitall", "wait_timeout")] := by
+    Generated.safeTerminateWaits = [("get", "timeout"), ("waitall", "None if timeout is None else timeout * 2"),
+      ("waitfinish", "None if timeout is None else timeout * 2")] := by
   decide
 
 /-! ### the loop terminates and empties the group -/
